@@ -813,17 +813,18 @@ type parkedOp struct {
 
 // Exec is one case's implementation-side state.
 type Exec struct {
-	w      *world
-	g      *gen
-	live   bool
-	nops   int
-	ids    map[string]int // ref string -> id, for everything ever mentioned
-	acked  map[int]bool
-	upl    map[int]*parkedOp
-	cps    map[int]*parkedOp
-	broken string
-	multi  *multi // non-nil: the case is a multi-destination case (multi.go)
-	rerun  bool   // this Exec re-runs a case to confirm a stall: full watchdogs
+	w        *world
+	g        *gen
+	live     bool
+	nops     int
+	ids      map[string]int // ref string -> id, for everything ever mentioned
+	acked    map[int]bool
+	upl      map[int]*parkedOp
+	cps      map[int]*parkedOp
+	broken   string
+	bulkNext int    // next bulk id offset
+	multi    *multi // non-nil: the case is a multi-destination case (multi.go)
+	rerun    bool   // this Exec re-runs a case to confirm a stall: full watchdogs
 
 	// LastDump is the goroutine dump taken when a watchdog of this Exec last fired.
 	LastDump string
@@ -1194,6 +1195,16 @@ func (e *Exec) Step(ws []string) string {
 		e.g.firstFault, e.g.firstLeft = "", 0
 		e.g.fmu.Unlock()
 		return out
+	case "bulkup":
+		// N distinct tiny blobs (ids from bulkBase up), each a whole clean upload
+		if len(ws) != 2 {
+			return "bad-op"
+		}
+		n, ok := parseID(ws[1])
+		if !ok {
+			return "bad-op"
+		}
+		return e.bulkup(n)
 	case "restart":
 		if len(ws) != 1 {
 			return "bad-op"
@@ -1243,6 +1254,20 @@ func (e *Exec) runSyncLoopOn(sh *server.SyncHandler) string {
 	}
 }
 
+func (e *Exec) bulkup(n int) string {
+	acked := 0
+	for k := 0; k < n; k++ {
+		i := bulkBase + e.bulkNext
+		e.bulkNext++
+		br := e.note(i)
+		if err := e.upload(i, br); err == nil {
+			e.acked[i] = true
+			acked++
+		}
+	}
+	return fmt.Sprintf("acked=%d", acked)
+}
+
 func (e *Exec) restart(live bool) {
 	e.g.kill()
 	e.upl, e.cps = map[int]*parkedOp{}, map[int]*parkedOp{}
@@ -1265,6 +1290,12 @@ func (e *Exec) stepLive(ws []string) string {
 		}
 		e.acked[i] = true
 		return "ack"
+	case len(ws) == 2 && ws[0] == "bulkup":
+		n, ok := parseID(ws[1])
+		if !ok {
+			return "bad-op"
+		}
+		return e.bulkup(n)
 	case len(ws) == 2 && ws[0] == "outage" && isOutageFault(ws[1]):
 		e.w.omu.Lock()
 		e.w.outage = ws[1]
@@ -1398,29 +1429,35 @@ func (e *Exec) Observe() View {
 	return v
 }
 
+// bulkBase: ids of the blobs uploaded by `bulkup` (not expressible as an op argument). In state lines
+// they are printed as ranges lo-hi so that a queue of thousands of rows stays one short line.
+const bulkBase = 100000
+
+// joinInts prints a sorted id list: ids below bulkBase one by one, bulk ids as maximal ranges.
 func joinInts(l []int) string {
-	s := make([]string, len(l))
-	for i, x := range l {
-		s[i] = strconv.Itoa(x)
+	var s []string
+	for k := 0; k < len(l); k++ {
+		if l[k] < bulkBase {
+			s = append(s, strconv.Itoa(l[k]))
+			continue
+		}
+		j := k
+		for j+1 < len(l) && l[j+1] == l[j]+1 {
+			j++
+		}
+		if j == k {
+			s = append(s, strconv.Itoa(l[k]))
+		} else {
+			s = append(s, strconv.Itoa(l[k])+"-"+strconv.Itoa(l[j]))
+		}
+		k = j
 	}
 	return strings.Join(s, ",")
 }
 
 func (v View) String() string {
-	ids := make([]int, 0, len(v.Dst))
-	for i := range v.Dst {
-		ids = append(ids, i)
-	}
-	sort.Ints(ids)
-	d := make([]string, len(ids))
-	for k, i := range ids {
-		d[k] = strconv.Itoa(i)
-		if !v.Dst[i] {
-			d[k] += "!"
-		}
-	}
 	s := fmt.Sprintf("src=%s dst=%s rows=%s need=%s copying=%s acked=%s upl=%s cps=%s",
-		joinInts(v.Src), strings.Join(d, ","), joinInts(v.Rows), joinInts(v.Need), joinInts(v.Copying),
+		joinInts(v.Src), dstString(v.Dst), joinInts(v.Rows), joinInts(v.Need), joinInts(v.Copying),
 		joinInts(v.Acked), joinInts(v.Upl), joinInts(v.Cps))
 	if len(v.BadRows) > 0 || v.Foreign > 0 {
 		s += fmt.Sprintf(" badrows=%d foreign=%d", len(v.BadRows), v.Foreign)
